@@ -295,10 +295,11 @@ _reg("C17", c17.run,
                 "snapshots of the real objects around every observer call, failing ones included - which only the "
                 "correspondence/oracle run provides.",
      level_note="Lean kernel; hand-written models of to_dict/from_dict/write/read and of the h5py contract (create_dataset conversions, item[()], link names, iteration order), validated against the real library and real files on every run.")
-_reg("C18", c18.run, translator=("T1", "T2"),
+_reg("C18", c18.run, translator=("T1", "T2"), module="NirVerif.Properties.C18Depth",
      theorems=["NirVerif.C18.whitelist_documented", "NirVerif.C18.closed", "NirVerif.C18.closed_nonstring",
                "NirVerif.C18.no_type", "NirVerif.C18.mandatory_table", "NirVerif.C18.construct_missing",
-               "NirVerif.C18.construct_extra", "NirVerif.C18.fromDict_generic"],
+               "NirVerif.C18.construct_extra", "NirVerif.C18.fromDict_generic", "NirVerif.C18.closed_at_depth",
+               "NirVerif.C18.closed_child"],
      rule="Every public and private name of nir, nir.ir, nir.ir.graph, nir.serialization and builtins, case/whitespace "
           "variants of the 18 whitelisted names and random unicode strings as `type` (full and bare dictionaries, top level "
           "and nested, via dict and via file); every single mandatory-field deletion and a non-field insertion for every "
@@ -307,7 +308,9 @@ _reg("C18", c18.run, translator=("T1", "T2"),
                 "not a string, or missing) makes dict2NIRNode raise and construct nothing; the mandatory fields of every "
                 "class are exactly the documented parameters; a missing mandatory field or an extra non-field key makes "
                 "the constructor raise TypeError (never defaulted or ignored); for primitives without their own from_dict "
-                "reading a dictionary is exactly cls(**d). The translator additionally checks that str2NIRNode still is "
+                "reading a dictionary is exactly cls(**d); and the closed world holds at EVERY nesting depth "
+                "(closed_at_depth: whenever dict2NIRNode returns a node, the type tag of the dictionary and of every nested "
+                "node dictionary is whitelisted; closed_child). The translator additionally checks that str2NIRNode still is "
                 "`assert type in __all_ir; return globals()[type]`.",
      level_note="Lean kernel + T1/T2; CPython keyword binding and `assert` (no -O) are modelled; nested/graph-level strictness "
                 "(class-specific from_dict of Input/Output/Flatten/NIRGraph) is covered by the correspondence run.")
@@ -325,7 +328,8 @@ _reg("C19", c19.run,
                 "on the dtype combinations the generators produce (same float dtype, Python float with float64).")
 _reg("C20", c20.run, translator=("T6", "T7"),
      theorems=["NirVerif.C20.zero", "NirVerif.C20.add", "NirVerif.C20.ode", "NirVerif.C20.relax", "NirVerif.C20.reset",
-               "NirVerif.C20.spike_some", "NirVerif.C20.spike_none", "NirVerif.C20.cuba_euler"],
+               "NirVerif.C20.spike_some", "NirVerif.C20.spike_none", "NirVerif.C20.cuba_euler",
+               "NirVerif.C20.record_transparent", "NirVerif.C20.recorded_value"],
      rule="Random tau in [1e-4,1], R, v_leak in [-2,2] (85% non-zero), v_threshold > v_leak, initial voltages below "
           "threshold: zero-step, split-step, long-time limit, RK4 comparison, threshold crossing of predicted spike "
           "times; event loop on 1-7 step currents with 5 recording intervals incl. non-dividing ones; CubaLIF reference "
